@@ -110,5 +110,56 @@ def package_overlay(root, how, package="syne_tune"):
                 p = os.path.join(d, f)
                 with open(p, encoding="utf-8") as fh:
                     src = fh.read()
-                out[os.path.relpath(p, root)] = reformat(src) if how == "reformat" else rewrite(src, how)
+                fn = {"reformat": reformat, "swapif": swap_if, "flipcmp": flip_cmp}.get(how)
+                out[os.path.relpath(p, root)] = fn(src) if fn else rewrite(src, how)
     return out
+
+
+class _SwapIf(ast.NodeTransformer):
+    """`if c: A else: B`  ->  `if not c: B else: A` (statements and conditional expressions)."""
+
+    @staticmethod
+    def _neg(c):
+        if isinstance(c, ast.UnaryOp) and isinstance(c.op, ast.Not):
+            return c.operand
+        return ast.UnaryOp(op=ast.Not(), operand=c)
+
+    def visit_If(self, n):
+        self.generic_visit(n)
+        if n.orelse and not (len(n.orelse) == 1 and isinstance(n.orelse[0], ast.If)):
+            n.test, n.body, n.orelse = self._neg(n.test), n.orelse, n.body
+        return n
+
+    def visit_IfExp(self, n):
+        self.generic_visit(n)
+        n.test, n.body, n.orelse = self._neg(n.test), n.orelse, n.body
+        return n
+
+
+_MIRROR = {ast.Lt: ast.Gt, ast.Gt: ast.Lt, ast.LtE: ast.GtE, ast.GtE: ast.LtE, ast.Eq: ast.Eq, ast.NotEq: ast.NotEq}
+
+
+class _FlipCmp(ast.NodeTransformer):
+    """`a < b` -> `b > a`, `a == b` -> `b == a` (single comparisons; not when both operands contain a call, whose
+    evaluation order would change)."""
+
+    def visit_Compare(self, n):
+        self.generic_visit(n)
+        if len(n.ops) == 1 and type(n.ops[0]) in _MIRROR:
+            l, r = n.left, n.comparators[0]
+            has_call = [any(isinstance(y, (ast.Call, ast.Await, ast.Yield, ast.NamedExpr)) for y in ast.walk(x)) for x in (l, r)]
+            if not all(has_call):
+                return ast.copy_location(ast.Compare(left=r, ops=[_MIRROR[type(n.ops[0])]()], comparators=[l]), n)
+        return n
+
+
+def swap_if(src):
+    t = _SwapIf().visit(ast.parse(src))
+    ast.fix_missing_locations(t)
+    return ast.unparse(t) + "\n"
+
+
+def flip_cmp(src):
+    t = _FlipCmp().visit(ast.parse(src))
+    ast.fix_missing_locations(t)
+    return ast.unparse(t) + "\n"
